@@ -145,7 +145,7 @@ func record1(text string) (fields []string, pcs []uintptr, name string, ok bool)
 
 // ---------------------------------------------------------------- real crashes
 
-var kinds = []string{"hugemsg", "generic-chain", "longmsg", "longnames", "longnames-mixed", "nil", "panic", "index", "map", "inlined", "method", "generic", "goroutine", "deep16", "deep", "deadlock"}
+var kinds = []string{"hugemsg", "generic-chain", "longmsg", "longnames", "longnames-unicode", "longnames-mixed", "nil", "panic", "index", "map", "inlined", "method", "generic", "goroutine", "deep16", "deep", "deadlock"}
 
 type realCrash struct {
 	kind     string
@@ -448,7 +448,11 @@ func withLongLine(text string) string {
 func longNameReport() string {
 	var prog []int
 	for g := 1 + rnd.Intn(4); g > 0; g-- {
-		prog = append(prog, rnd.Intn(5), 1+rnd.Intn(16))
+		prog = append(prog, rnd.Intn(6), 1+rnd.Intn(16))
+	}
+	if rnd.Chance(35) { // a few ASCII frames (they shift the alignment), then non-ASCII long names beyond the limit
+		prog = []int{5, 16, rnd.Intn(5), 1 + rnd.Intn(4)}
+		out.Note("long-names-unicode")
 	}
 	var pcs []uintptr
 	longDispatch(prog, func() {
@@ -937,7 +941,12 @@ func main() {
 		}
 		out.Case(true, append([]string{"name", tag}, fields...)...)
 	}
+	// One generator per case, seeded from the master stream: the real reports differ a little
+	// from run to run (widths of sp/fp/mp values), and choices that depend on their text must
+	// not shift the choices of later cases.
+	master := rnd
 	for i := len(reals); i < n; i++ {
+		rnd = NewRand(master.Uint64())
 		base := Pick(rnd, bases)
 		switch r := i % 20; {
 		case i%40 == 19:
@@ -983,6 +992,32 @@ func main() {
 			}
 			emit("both-routes", t)
 			caseChild("both-routes", t)
+		case i%20 == 17: // the first running goroutine has NO pc at all; other running goroutines follow
+			t := base.clone()
+			for k := 1; k < len(t.body); k += 2 {
+				if j := strings.Index(t.body[k], " pc="); j >= 0 {
+					t.body[k] = Pick(rnd, []string{t.body[k][:j], t.body[k][:j] + " pc=", t.body[k][:j] + " pc=zz", "\t/inlined.go:1"})
+				}
+			}
+			if rnd.Chance(30) && len(t.body) > 4 {
+				t.body = t.body[:2*(1+rnd.Intn(2))]
+			}
+			term := Pick(rnd, []string{"", "", "created by main.x in goroutine 1"})
+			alone := t.clone()
+			alone.rest = []string{term}
+			emit("first-goroutine-pcless", alone.String())
+			for v := 1 + rnd.Intn(2); v > 0; v-- { // the same, followed by other goroutines marked running, with pcs
+				other := Pick(rnd, bases)
+				w := t.clone()
+				w.rest = []string{term}
+				if term != "" {
+					w.rest = append(w.rest, "\t/src/x.go:1 +0x1", "")
+				}
+				w.rest = append(w.rest, fmt.Sprintf("goroutine %d [running]:", 2+rnd.Intn(90)))
+				w.rest = append(w.rest, other.body...)
+				w.rest = append(w.rest, "", "goroutine 99 gp=0x1 m=1 mp=0x2 [running]:", "main.z()", fmt.Sprintf("\t/z.go:1 pc=0x%x", Pick(rnd, poolPCs())), "")
+				emit("first-goroutine-pcless-then-running", w.String())
+			}
 		case i%10 == 6: // real pcs of generic instantiations followed by same-package callers
 			emit("generic-names", genericReport())
 		case i%10 == 3: // real pcs of long-named functions: names near / beyond the limit
